@@ -163,6 +163,7 @@ func cmdCheck(args []string) int {
 	files := map[string]bool{}
 	usedLemmas := map[string]bool{}
 	taggedFn := map[string]bool{}
+	ensTagged := map[string]bool{} // functions with a postcondition tagged for this property: their untagged loop invariants carry it
 	for _, k := range cfg.FuncsTagged {
 		taggedFn[fullKey(k)] = true
 	}
@@ -181,6 +182,11 @@ func cmdCheck(args []string) int {
 		ft := g.TranslateFunction(fn, c)
 		fts = append(fts, ft)
 		if c != nil {
+			for _, cl := range c.Ensures {
+				if len(cl.Tags) > 0 && tagged(cl.Tags, id) {
+					ensTagged[ft.name] = true
+				}
+			}
 			files[c.File] = true
 			for _, u := range c.Uses {
 				usedLemmas[u] = true
@@ -206,6 +212,9 @@ func cmdCheck(args []string) int {
 	defer os.RemoveAll(dir)
 	filter := func(o *Obl) bool {
 		if cfg.TaggedOnly || taggedFn[o.Fn] {
+			if len(o.Tags) == 0 && ensTagged[o.Fn] && (o.Kind == "inv-init" || o.Kind == "inv-pres") {
+				return true
+			}
 			return len(o.Tags) > 0 && tagged(o.Tags, id)
 		}
 		return tagged(o.Tags, id)
